@@ -176,21 +176,19 @@ where
 
         let mut stream = blocks.try_buffered(self.worker_count.get());
 
-        self.block = match stream.try_next().await? {
-            Some(mut block) => {
-                let (cpos, upos) = pos.into();
-
-                self.position = cpos + block.size();
-
-                block.set_position(cpos);
-                block.data_mut().set_position(usize::from(upos));
-
-                block
-            }
-            None => Block::default(),
-        };
-
+        let result = stream.try_next().await;
         self.stream.replace(stream);
+
+        let (cpos, upos) = pos.into();
+
+        // No block follows `cpos` when, e.g., seeking to the end of the stream.
+        let mut block = result?.unwrap_or_default();
+
+        self.position = cpos + block.size();
+        block.set_position(cpos);
+        self.block = block;
+
+        set_block_data_position(&mut self.block, upos)?;
 
         Ok(pos)
     }
@@ -230,22 +228,28 @@ where
                         }
                     };
 
-                    self.block = match item {
-                        Some(Ok(mut block)) => {
-                            let (cpos, upos) = pos.into();
+                    let (cpos, upos) = pos.into();
 
-                            self.position = cpos + block.size();
+                    self.stream.replace(stream);
 
-                            block.set_position(cpos);
-                            block.data_mut().set_position(usize::from(upos));
-
-                            block
+                    let mut block = match item {
+                        Some(Ok(block)) => block,
+                        Some(Err(e)) => {
+                            self.seek_state = Some(SeekState::Init);
+                            return Poll::Ready(Err(e));
                         }
-                        Some(Err(e)) => return Poll::Ready(Err(e)),
+                        // No block follows `cpos` when, e.g., seeking to the end of the stream.
                         None => Block::default(),
                     };
 
-                    self.stream.replace(stream);
+                    self.position = cpos + block.size();
+                    block.set_position(cpos);
+                    self.block = block;
+
+                    if let Err(e) = set_block_data_position(&mut self.block, upos) {
+                        self.seek_state = Some(SeekState::Init);
+                        return Poll::Ready(Err(e));
+                    }
 
                     // The next call is a new seek, even if it is to the same position.
                     self.seek_state = Some(SeekState::Init);
@@ -282,6 +286,21 @@ where
         self.seek(virtual_position).await?;
         Ok(pos)
     }
+}
+
+fn set_block_data_position(block: &mut Block, upos: u16) -> io::Result<()> {
+    let upos = usize::from(upos);
+
+    if upos > block.data().len() {
+        return Err(io::Error::new(
+            io::ErrorKind::InvalidInput,
+            "invalid virtual position: uncompressed position exceeds block data length",
+        ));
+    }
+
+    block.data_mut().set_position(upos);
+
+    Ok(())
 }
 
 impl<R> AsyncRead for Reader<R>
